@@ -190,7 +190,9 @@ def prepare_affine(
     need_pad = False
     for c, s, s0 in zip(center, output_shape, img.shape):
         x0 = int(c - s / 2 - order)
-        x1 = int(x0 + s + 2 * order + 1)
+        # one extra voxel on the far side: the last sample is at most 0.5 pixel beyond
+        # ``x0 + s + 2 * order`` and must stay inside the cropped window.
+        x1 = int(x0 + s + 2 * order + 2)
         _sl, _pad, _need_pad = make_slice_and_pad(x0, x1, s0)
         slices.append(_sl)
         pads.append(_pad)
@@ -222,7 +224,7 @@ def prepare_affine_cornersafe(
     need_pad = False
     for c, s0 in zip(center, img.shape):
         x0 = int(c - half_len - order)
-        x1 = int(x0 + max_len + 2 * order + 1)
+        x1 = int(x0 + max_len + 2 * order + 2)
         _sl, _pad, _need_pad = make_slice_and_pad(x0, x1, s0)
         slices.append(_sl)
         pads.append(_pad)
